@@ -1,5 +1,6 @@
 import subprocess, sys, os, json, re
-W='/tmp/rw-wbxmlenc-1'; V='/tmp/vw-wbxmlenc'
+import os
+W=os.environ.get('MUT_WORKTREE','/tmp/rw-wbxmlenc-1'); V=os.path.dirname(os.path.dirname(os.path.dirname(os.path.abspath(__file__))))
 muts = [
  ("M1-strtbl-len-without-NUL", "    encoder->strstbl_len += wbxml_buffer_len(elt->string) + 1;", "    encoder->strstbl_len += wbxml_buffer_len(elt->string);"),
  ("M2-switch-page-only-upwards", "    if (encoder->tagCodePage != page)\n    {\n        if ((!wbxml_buffer_append_char(encoder->output, WBXML_SWITCH_PAGE))", "    if (encoder->tagCodePage < page)\n    {\n        if ((!wbxml_buffer_append_char(encoder->output, WBXML_SWITCH_PAGE))"),
